@@ -314,11 +314,13 @@ impl Recorder {
         self.recs.lock().unwrap().len()
     }
     fn push(&self, record: &log::Record) {
-        self.recs.lock().unwrap().push(Rec {
+        // format first (the arguments may log recursively), lock afterwards
+        let rec = Rec {
             level: record.level(),
             target: record.target().to_string(),
             msg: record.args().to_string(),
-        });
+        };
+        self.recs.lock().unwrap().push(rec);
     }
 }
 
